@@ -15,6 +15,7 @@
 //!                                          pE!ep!tsi (TOI 0, no EXT_FDT: Err when processed)  pK!ep!tsi
 //!                                          (same with close-object flag: Ok)  pC!ep!tsi (close-session)
 //!                                          pD!ep!tsi (close-session flag on a damaged FDT packet: Err, session ends)
+//!                                          pO!ep!tsi (a packet of an object without OTI: cached, the object stalls: Ok)
 //!                                          pX!ep (garbage)  C (cleanup)  Z<ms> (sleep, decimal)  Y (spin until
 //!                                          session time-out after the middle of the pushes so far)
 //!                                     events: id<l> (add_listener result)  o<l>!key  c<l>!key
@@ -221,6 +222,25 @@ fn probe_pkt(kind: char, tsi: u64) -> Vec<u8> {
         let p = flute::core::alc::parse_alc_pkt(&pkt).expect("probe parses");
         assert!(p.lct.tsi == tsi && p.lct.close_session && p.lct.toi == 0);
         return pkt;
+    }
+    if kind == 'O' {
+        // a packet of an OBJECT whose OTI is not known (no EXT_FTI, no FDT): it is cached, the session now holds
+        // an object that can never complete (Ok when processed)
+        let ep = UDPEndpoint::new(None, "224.0.0.1".to_string(), 3000);
+        let mut oti = flute::core::Oti::new_no_code(16, 4);
+        oti.inband_fti = false;
+        let mut sender = flute::sender::Sender::new(ep, tsi, &oti, &Default::default());
+        let obj = flute::sender::ObjectDesc::create_from_buffer(vec![7u8; 40], "a/b", &url::Url::parse("file:///stalled").unwrap(), false, Default::default()).expect("object");
+        sender.add_object(0, obj).expect("add");
+        sender.publish(sys_now()).expect("publish");
+        while let Some(pkt) = sender.read(sys_now()) {
+            let p = flute::core::alc::parse_alc_pkt(&pkt).expect("probe parses");
+            if p.lct.toi != 0 {
+                assert!(p.lct.tsi == tsi && p.oti.is_none() && !p.lct.close_session);
+                return pkt;
+            }
+        }
+        panic!("no object packet");
     }
     let mut pkt = flute::verif_hooks::alc::new_alc_pkt_close_session(&0u128, tsi);
     pkt[1] &= !0x03;
@@ -844,6 +864,18 @@ fn gen(args: &Args, emit: &mut dyn FnMut(String)) {
             s.push_str(&format!(" Z8 {}!{}!{:x}", kind, ep, tsi));
         }
         s.push_str(&format!(" C pE!{}!{:x}", ep, tsi));
+        emit(s);
+    }
+    // a session that holds a STALLED object (packets cached, no FDT) and then goes silent for longer than the
+    // session time-out is closed by the cleanup like any idle session
+    for k in 0..per(8, 40) {
+        let ep = if k % 2 == 0 { "-.1.bb8" } else { "7.2.bb9" };
+        let tsi = 1 + k % 2;
+        let mut s = format!("M 0 14 L+ pO!{}!{:x}", ep, tsi);
+        if k % 3 == 1 {
+            s.push_str(&format!(" Z4 pO!{}!{:x}", ep, tsi));
+        }
+        s.push_str(&format!(" Z40 C pE!{}!{:x}", ep, tsi));
         emit(s);
     }
     // a carousel that only repeats what the receiver already has keeps its session alive: after the whole
